@@ -105,6 +105,14 @@ def step (st : DState) (toks : List String) : DState × String :=
       let (n', resp) := st.node.storePeerReq drvCrypto { addr := addr, pk := pk, mid := mid } tok target
       ({ st with node := n' }, if resp then "resp=1" else "resp=0")
     | _, _, _, _, _ => bad
+  | "cache" :: key :: loc :: blobs =>
+    match key.toNat?, loc.toNat?, blobs.mapM parseBlob with
+    | some key, some loc, some blobs => ({ st with node := st.node.cacheStore drvCrypto key blobs (loc != 0) }, "ok")
+    | _, _, _ => bad
+  | "keep" :: blobs =>
+    match blobs.mapM parseBlob with
+    | some blobs => (st, showNatList ((keepLocal blobs).map (·.uid)))
+    | none => bad
   | ["ping", nid] =>
     match nid.toNat? with
     | some nid =>
@@ -130,10 +138,11 @@ def step (st : DState) (toks : List String) : DState × String :=
     match lists.mapM natList? with
     | some ls => (st, showNatList (crawlValues ls))
     | none => bad
-  | ["unserb", hex, keyok, siglen, valid] =>
-    match ofHex? hex, keyok.toNat?, siglen.toNat?, valid.toNat? with
-    | some v, some keyok, some siglen, some valid =>
-      let B : BCrypto := { keyOk := fun _ => keyok != 0, sigLen := fun _ => siglen, verify := fun _ _ _ => valid != 0 }
+  | ["unserb", hex, keyok, siglen, valid, canon] =>
+    match ofHex? hex, keyok.toNat?, siglen.toNat?, valid.toNat?, ofHex? canon with
+    | some v, some keyok, some siglen, some valid, some canon =>
+      let B : BCrypto := { keyOk := fun _ => keyok != 0, sigLen := fun _ => siglen, verify := fun _ _ _ => valid != 0,
+                           canon := fun _ => canon }
       let q := match v with
         | t :: _ =>
           if t.toNat = Gen.entryStrSigned then
@@ -146,7 +155,7 @@ def step (st : DState) (toks : List String) : DState × String :=
             | .raise => "raise"
             | .none => "none"
             | .ok d pk ver => s!"ok {toHex d} {match pk with | some p => toHex p | none => "-"} {ver}") ++ q)
-    | _, _, _, _ => bad
+    | _, _, _, _, _ => bad
   | ["serb", data, ver, pk, sig] =>
     match ofHex? data, ver.toNat?, ofHex? pk, ofHex? sig with
     | some data, some ver, some pk, some sig => (st, toHex (serializeSigned (fun _ => sig) data ver pk))
